@@ -275,7 +275,8 @@ def eval_check(run, fams, rule, assumptions=None):
                         for fam in fams])
     for fam, st in zip(fams, sts):
         path, n = run.records(st)
-        run.replay("render", path, name="render-" + fam)
+        # every program is rendered through EvaluateString and, written to a file, through NewTemplate + String
+        run.replay("render", path, name="render-" + fam, env={"TWH_ALSO_TEMPLATE": "1"})
         run.add_samples(path, 1)
     return vp.finish(run, "model_checking", rule, exhaustive=True,
                      assumptions=(assumptions or []) + ["TLC 1.8.0; expected outputs come from spec/TwEval.tla, "
@@ -349,7 +350,7 @@ def c13(run):
     st, st2 = run.tlc_many([dict(module="MC_Text", cfg=text_cfg(fam), name="MC_Text_" + fam, timeout=3000, workers=1),
                             dict(module="MC_Tree", cfg=text_cfg("c13tree"), name="MC_Tree_c13tree", timeout=3000, workers=1)])
     path, n = run.records(st)
-    run.replay("render", path, name="render-" + fam)
+    run.replay("render", path, name="render-" + fam, env={"TWH_ALSO_TEMPLATE": "1"})   # also as a file: path of the page
     run.add_samples(path, 2)
     path2, n2 = run.records(st2)
     run.replay("tree", path2, name="tree-c13")
